@@ -144,6 +144,48 @@ impl IopsQuota {
 
 static IOPS_QUOTA: std::sync::LazyLock<IopsQuota> = std::sync::LazyLock::new(IopsQuota::new);
 
+/// Verification hook (off by default, cargo feature `verif-hooks`): lets an external monitor
+/// observe the I/O queue state at every point where it changes, under the queue's own mutex.
+#[cfg(feature = "verif-hooks")]
+pub mod verif_hooks {
+    use std::sync::{Arc, RwLock};
+
+    /// State of one I/O queue right after `event` was applied.
+    #[derive(Debug, Clone)]
+    pub struct QueueSnapshot {
+        /// "push" | "admit" | "iop_complete" | "bytes_consumed" | "close"
+        pub event: &'static str,
+        /// address of the queue state (identifies the scheduler instance)
+        pub queue_id: usize,
+        pub iops_avail: u32,
+        pub bytes_avail: i64,
+        pub pending: usize,
+        pub in_flight: usize,
+        pub min_in_flight: u128,
+        pub done_scheduling: bool,
+        /// priority of the task that was pushed / admitted / consumed (if any)
+        pub task_priority: Option<u128>,
+        /// bytes of the task that was pushed / admitted / consumed (if any)
+        pub task_bytes: Option<u64>,
+    }
+
+    pub type Observer = Arc<dyn Fn(&QueueSnapshot) + Send + Sync>;
+
+    static OBSERVER: RwLock<Option<Observer>> = RwLock::new(None);
+
+    /// Install (or clear) the process wide observer.
+    pub fn set_observer(observer: Option<Observer>) {
+        *OBSERVER.write().unwrap() = observer;
+    }
+
+    pub(super) fn emit(snapshot: QueueSnapshot) {
+        let observer = OBSERVER.read().unwrap().clone();
+        if let Some(observer) = observer {
+            observer(&snapshot);
+        }
+    }
+}
+
 // We want to allow requests that have a lower priority than any
 // currently in-flight request.  This helps avoid potential deadlocks
 // related to backpressure.  Unfortunately, it is quite expensive to
@@ -203,6 +245,27 @@ struct IoQueueState {
 }
 
 impl IoQueueState {
+    #[cfg(feature = "verif-hooks")]
+    fn verif_emit(
+        &self,
+        event: &'static str,
+        task_priority: Option<u128>,
+        task_bytes: Option<u64>,
+    ) {
+        verif_hooks::emit(verif_hooks::QueueSnapshot {
+            event,
+            queue_id: self as *const Self as usize,
+            iops_avail: self.iops_avail,
+            bytes_avail: self.bytes_avail,
+            pending: self.pending_requests.len(),
+            in_flight: self.priorities_in_flight.in_flight.len(),
+            min_in_flight: self.priorities_in_flight.min_in_flight(),
+            done_scheduling: self.done_scheduling,
+            task_priority,
+            task_bytes,
+        });
+    }
+
     fn new(io_capacity: u32, io_buffer_size: u64) -> Self {
         Self {
             iops_avail: io_capacity,
@@ -291,7 +354,11 @@ impl IoQueue {
             task.priority & 0xFFFFFFFFFFFFFFFF
         );
         let mut state = self.state.lock().unwrap();
+        #[cfg(feature = "verif-hooks")]
+        let (verif_priority, verif_bytes) = (task.priority, task.num_bytes());
         state.pending_requests.push(task);
+        #[cfg(feature = "verif-hooks")]
+        state.verif_emit("push", Some(verif_priority), Some(verif_bytes));
         drop(state);
 
         self.notify.notify_one();
@@ -308,6 +375,8 @@ impl IoQueue {
                 // Next, try and grab a reservation from the queue
                 let mut state = self.state.lock().unwrap();
                 if let Some(task) = state.next_task() {
+                    #[cfg(feature = "verif-hooks")]
+                    state.verif_emit("admit", Some(task.priority), Some(task.num_bytes()));
                     // Reservation successfully acquired, we will release the global
                     // global reservation after task has run.
                     iop_res.forget();
@@ -326,6 +395,8 @@ impl IoQueue {
     fn on_iop_complete(&self) {
         let mut state = self.state.lock().unwrap();
         state.iops_avail += 1;
+        #[cfg(feature = "verif-hooks")]
+        state.verif_emit("iop_complete", None, None);
         drop(state);
 
         self.notify.notify_one();
@@ -337,6 +408,8 @@ impl IoQueue {
         for _ in 0..num_reqs {
             state.priorities_in_flight.remove(priority);
         }
+        #[cfg(feature = "verif-hooks")]
+        state.verif_emit("bytes_consumed", Some(priority), Some(bytes));
         drop(state);
 
         self.notify.notify_one();
@@ -346,6 +419,8 @@ impl IoQueue {
         let mut state = self.state.lock().unwrap();
         state.done_scheduling = true;
         let pending_requests = std::mem::take(&mut state.pending_requests);
+        #[cfg(feature = "verif-hooks")]
+        state.verif_emit("close", None, None);
         drop(state);
         for request in pending_requests {
             request.cancel();
